@@ -201,3 +201,7 @@ impl Certificate {
 		Ok(())
 	}
 }
+
+#[cfg(feature = "breard_r_acmed_verif")]
+#[path = "/verif/probe/certificate_probe.rs"]
+mod verif;
